@@ -202,3 +202,91 @@ def replay_cc(tmp, tier, seed, goenv):
     return {"evaluations": len(terms), "bad": bad,
             "note": "%d cc cases re-evaluated inside Coq with vm_compute and compared with the extracted model's answers: %s"
                     % (len(terms), "all agree" if not bad else "%d disagree" % len(bad))}
+
+
+# ------------------------------------------------------------------ server sessions
+
+BEH = {"ok": "ShOk", "short": "ShShort", "long": "ShLong", "nil": "ShNil", "eproto": "ShProto", "eother": "ShOther"}
+
+
+def beh_term(t):
+    if t in BEH:
+        return BEH[t]
+    if t.startswith("e") and t[1:].isdigit():
+        return "(ShErr %s)" % t[1:]
+    return "ShOk"
+
+
+KIND = {"c": "HCoils", "d": "HDiscrete", "h": "HHolding", "i": "HInput"}
+
+
+def event_term(ev):
+    if ev == "X":
+        return "EvClosed"
+    if ev.startswith("R:"):
+        return "EvResp %s" % nlist(hexbytes(ev[2:]))
+    assert ev.startswith("C:")
+    _, kind, unit, addr, qty, wr, args = ev.split(":", 6)
+    if kind in ("c", "d"):
+        b, r = nlist(bools(args)), "[]"
+    else:
+        b, r = "[]", nlist(nums(args))
+    return "EvCall (mkhreq %s %s %s %s %s %s %s)" % (KIND[kind], unit, addr, qty, "true" if wr == "1" else "false", b, r)
+
+
+def srv_term(inp, model_out):
+    send, chunks, script = inp.split(" ")
+    e = {"s": "Stall", "c": "Closed", "r": "Reset"}[send]
+    stream = []
+    if chunks != "-":
+        for ch in chunks.split(","):
+            stream += hexbytes(ch)
+    sc = [] if script == "-" else [beh_term(t) for t in script.split(",")]
+    evs = [event_term(x) for x in model_out.split(";")] if model_out else []
+    return "srv_check %s %s %s %s" % (nlist(sc), e, nlist(stream), nlist(evs))
+
+
+def replay_srv(tmp, tier, seed, goenv):
+    """extra: evaluate a sample of this run's `srv` cases with vm_compute inside Coq"""
+    cases_p, model_p = os.path.join(tmp, "cases.tsv"), os.path.join(tmp, "model.tsv")
+    if not (os.path.exists(cases_p) and os.path.exists(model_p)):
+        return {"evaluations": 0, "bad": [], "note": "in-Coq replay skipped: no case files"}
+    want = 120 if tier == "quick" else 1500
+    rows = []
+    with open(cases_p) as fc, open(model_p) as fm:
+        for lc, lm in zip(fc, fm):
+            p = lc.rstrip("\n").split("\t")
+            if len(p) == 3 and p[0] == "srv" and len(lc) < 3000:
+                rows.append((p[1], lm.split("\t")[0]))
+    rnd = random.Random(seed)
+    if len(rows) > want:
+        rows = rnd.sample(rows, want)
+    terms, kept = [], []
+    for inp, mo in rows:
+        try:
+            terms.append(srv_term(inp, mo))
+            kept.append((inp, mo))
+        except Exception:
+            continue
+    if not terms:
+        return {"evaluations": 0, "bad": [], "note": "in-Coq replay: no srv cases in this run"}
+    src = ("From Modbus Require Import Base.Bytes Model.Encoding Model.Wire Model.Server Model.ScriptHandler Replay.ReplayLib.\n"
+           "Definition cases : list bool := [\n  " + ";\n  ".join(terms) + "].\n"
+           "Definition bad := Eval vm_compute in failing 0 cases.\nPrint bad.\n")
+    vf = os.path.join(tmp, "ReplaySrv.v")
+    with open(vf, "w") as fh:
+        fh.write(src)
+    p = subprocess.run(["coqc", "-Q", os.path.join(COQ, "theories"), "Modbus", "-noglob", vf], cwd=tmp,
+                       stdout=subprocess.PIPE, stderr=subprocess.STDOUT, text=True, timeout=1500)
+    out = p.stdout.replace("\n", " ")
+    bad = []
+    m = re.search(r"bad\s*=\s*\[(.*?)\]", out)
+    if p.returncode != 0 or not m:
+        bad.append((0, "coqreplay", "coqc ReplaySrv.v", "failed: " + p.stdout[-400:], "evaluates", "-"))
+    else:
+        for i in [int(x) for x in re.findall(r"\d+", m.group(1))][:5]:
+            inp, mo = kept[i]
+            bad.append((i, "coqreplay-srv", inp, "modeld: " + mo, "vm_compute disagrees", "-"))
+    return {"evaluations": len(terms), "bad": bad,
+            "note": "%d srv cases re-evaluated inside Coq with vm_compute and compared with the extracted model's answers: %s"
+                    % (len(terms), "all agree" if not bad else "%d disagree" % len(bad))}
